@@ -1,8 +1,13 @@
 use std::collections::VecDeque;
+#[cfg(folo_verif)]
+use std::sync::Arc;
+#[cfg(not(folo_verif))]
 use std::sync::{Arc, Mutex};
 use std::task::{Context, Poll, Waker};
 
 use crate::erased_future::ErasedFutureHandle;
+#[cfg(folo_verif)]
+use crate::verif_sync::Mutex;
 use crate::waker_meta::{self, MetaPtr};
 
 /// Shared core implementation for both [`FutureDeque`][crate::FutureDeque]
